@@ -16,9 +16,38 @@ REPO = kern.REPO
 SIZEOF = {"char": 1, "signed char": 1, "unsigned char": 1, "short": 2, "int": 4, "unsigned int": 4, "long": 8, "unsigned long": 8,
           "long long": 8, "float": 4, "double": 8, "_Bool": 1}
 DTYPE_SIZE = {"int8": 1, "bool": 1, "int16": 2, "int32": 4, "int64": 8, "float32": 4, "float64": 8}
+C2DTYPE = {"char": "int8", "signed char": "int8", "short": "int16", "int": "int32", "unsigned int": "int32", "long": "int64",
+           "unsigned long": "int64", "long long": "int64", "float": "float32", "double": "float64"}
 INT_C = {"char", "signed char", "unsigned char", "short", "int", "unsigned int", "long", "unsigned long", "long long", "_Bool"}
 
 _cache = {}
+
+
+def fill_lines(tree):
+    """clang's JSON dump prints a line number only when it changes: propagate the last one seen in document order"""
+    last = [0]
+
+    def loc(d):
+        if not isinstance(d, dict):
+            return
+        for k in ("spellingLoc", "expansionLoc"):
+            if k in d:
+                loc(d[k])
+        if "line" in d:
+            last[0] = d["line"]
+        elif "offset" in d:
+            d["line"] = last[0]
+
+    def rec(n):
+        if isinstance(n, dict):
+            if "loc" in n:
+                loc(n["loc"])
+            if "range" in n:
+                loc(n["range"].get("begin"))
+                loc(n["range"].get("end"))
+            for c in n.get("inner", []):
+                rec(c)
+    rec(tree)
 
 
 class CModule:
@@ -30,6 +59,7 @@ class CModule:
         out = subprocess.run(["clang", "-Xclang", "-ast-dump=json", "-fsyntax-only", self.path], stdout=subprocess.PIPE,
                              stderr=subprocess.DEVNULL, text=True)
         tree = json.loads(out.stdout)
+        fill_lines(tree)
         self.funcs = {}
         for n in tree.get("inner", []):
             if n.get("kind") == "FunctionDecl" and "includedFrom" not in n.get("loc", {}) and \
@@ -364,7 +394,14 @@ class CRun:
             if ck == "BitCast":
                 ty = n["type"]["qualType"]
                 if isinstance(v, CPtr) and ty.endswith("*"):
-                    return CPtr(v.arr, v.off, ty[:-1].strip())
+                    base = ty[:-1].strip()
+                    if v.arr.name == "alloca" and v.arr.dtype == "int8" and not is_sym(v.off) and v.off == 0:
+                        # freshly allocated memory has no declared type: it takes the type of the first pointer it is converted to
+                        dt = C2DTYPE.get(base.replace("const ", "").strip())
+                        if dt is not None:
+                            cnt = len(v.arr.data) // DTYPE_SIZE[dt]
+                            return CPtr(Arr((cnt,), [UNDEF] * cnt, dt, "alloca:" + dt), 0, base)
+                    return CPtr(v.arr, v.off, base)
                 return v
             if ck == "NullToPointer":
                 return None
@@ -496,4 +533,19 @@ class CRun:
             return sx.mod(a, b)
         if op in ("<", "<=", ">", ">=", "==", "!="):
             return {"<": lt, "<=": le, ">": gt, ">=": ge, "==": eq, "!=": ne}[op](a, b)
+        if op in ("|", "&", "^") and integral:
+            if not is_sym(a) and not is_sym(b):
+                return {"|": a | b, "&": a & b, "^": a ^ b}[op]
+            self.nfresh += 1
+            j = z3.Int(f"{self.prefix}_bit{self.nfresh}")
+            if op == "|":
+                # exact zero test; otherwise bounded by max(a,b) <= a|b <= a+b for non-negative operands
+                self.assumptions.append(z3.Implies(z3.And(sx.lift(a) >= 0, sx.lift(b) >= 0),
+                                                   z3.And(j >= sx.lift(a), j >= sx.lift(b), j <= sx.lift(a) + sx.lift(b))))
+                self.assumptions.append((j == 0) == z3.And(sx.lift(a) == 0, sx.lift(b) == 0))
+                return j
+            if op == "&":
+                self.assumptions.append(z3.Implies(z3.And(sx.lift(a) >= 0, sx.lift(b) >= 0), z3.And(j >= 0, j <= sx.lift(a), j <= sx.lift(b))))
+                return j
+            return j
         raise kern.Unsupported(f"C operator {op}")
